@@ -60,6 +60,8 @@ def clean(path, stats):
         elif k == "Skipped":
             stats["rows_skipped"] += 1
         elif k != "End":
+            if e.get("go", {}).get("timeout"):
+                raise Infra("a client call ran into a timeout (%s): overloaded machine, not a verdict" % e["go"].get("msg"))
             out.append(e)
     return out, crashes
 
